@@ -173,7 +173,8 @@ def scratch_copy():
 
 def run_check(prop, repo, out, runs=None, seed=0):
     env = dict(os.environ, VERIF_REPO=repo, VERIF_OUT=out, VERIF_SEED=str(seed))
-    cmd = [os.path.join(VERIF, "check"), prop, "--tier", "quick"] + (["--runs", str(runs)] if runs else [])
+    cmd = [os.path.join(VERIF, "check"), prop, "--tier", os.environ.get("MUTANT_TIER", "quick")] + (
+        ["--runs", str(runs)] if runs else [])
     p = subprocess.run(cmd, env=env, capture_output=True, text=True, timeout=1500)
     lines = [l for l in p.stdout.splitlines() if l.startswith("VIOLATION")]
     return p.returncode, lines, p.stdout[-1500:] + p.stderr[-800:]
